@@ -1,3 +1,5 @@
+//verif:v2only resource-level bridge (root-module instantiation pending)
+
 package dyn
 
 // Resource-level bridge: abstract calls and outcomes <-> generated Client / Resource methods.
